@@ -15,6 +15,7 @@ import OciModel.Driver.Conc
 import OciModel.Driver.BlobReader
 import OciModel.Driver.Unify
 import OciModel.Driver.UnifyID
+import OciModel.Driver.Wire
 import OciModel.Driver.UnifyConc
 import OciModel.Driver.Auth
 import OciModel.Driver.Iter
@@ -55,6 +56,7 @@ def step (st : DState) (line : String) : DState × String :=
   | "uni" :: rest =>
     let (u, out) := OciModel.Driver.Unify.drive st.uni rest
     ({ st with uni := u }, out)
+  | "wire1" :: rest => (st, OciModel.Driver.Wire.drive rest)
   | "uid" :: rest => (st, OciModel.Driver.UnifyID.drive rest)
   | "dbg" :: rest => (st, OciModel.Driver.Iter.drive rest)
   | "uconc" :: rest => (st, OciModel.Driver.UnifyConc.drive rest)
